@@ -90,6 +90,7 @@ type outcome struct {
 	res    *sim.Result
 	crash  *crashInfo
 	errStr string
+	dur    time.Duration
 }
 
 type runner struct {
@@ -147,8 +148,9 @@ func (r *runner) sweep(n int64, nw int, race bool, deadline time.Time, sink func
 				if stop {
 					return
 				}
+				t0 := time.Now()
 				resp, ci, e := w.do(r.request(run), timeout)
-				o := outcome{run: run, race: race}
+				o := outcome{run: run, race: race, dur: time.Since(t0)}
 				switch {
 				case e != nil:
 					o.errStr = e.Error()
@@ -484,6 +486,9 @@ func cmdCheck(args []string) int {
 			agg.crashes++
 		}
 		if o.res != nil {
+			if o.dur > agg.slowest {
+				agg.slowest, agg.slowestRun = o.dur, o.run
+			}
 			agg.add(o.res, o.race)
 			vs = o.res.Violations
 		}
@@ -562,6 +567,17 @@ func cmdCheck(args []string) int {
 				c.run = a.run
 			}
 		}
+		if cerr != nil && c.v.Oracle == "liveness" && c.v.Key == "hang" {
+			// the watchdog is the one oracle that reads a real clock. A run that exceeded it once and
+			// then completes alone, twice, in a small fraction of the watchdog period was starved by the
+			// machine (other processes), not slow: it is counted and not reported. A run that is
+			// genuinely expensive (a quarter of the period or more alone) is machinery trouble: exit 2.
+			if d, ok := r.timeAlone(c); ok && d < time.Duration(r.cfg.TimeoutS)*time.Second/4 {
+				fmt.Printf("simdriver: run %d exceeded the %ds watchdog once but completes alone in %.2fs (twice, fresh process): transient starvation, not a finding\n", c.run, r.cfg.TimeoutS, d.Seconds())
+				agg.stats["counters:transient_watchdog_timeouts"]++
+				continue
+			}
+		}
 		if cerr != nil {
 			fatal2("finding oracle=%s key=%s (run %d) did not reproduce from its tape in a fresh process: %v\n%s", c.v.Oracle, c.v.Key, c.run, cerr, c.v.Detail)
 		}
@@ -597,6 +613,36 @@ func cmdCheck(args []string) int {
 
 // confirmAndMinimise shrinks the candidate's tape, replays the minimised tape
 // in a fresh process and writes the replay file.
+// timeAlone replays the candidate's tape twice in a fresh worker and returns the longer duration;
+// ok is false when a replay did not complete cleanly.
+func (r *runner) timeAlone(c *candidate) (time.Duration, bool) {
+	bin := r.bin
+	if c.race {
+		bin = r.binRace
+	}
+	w, err := startWorker(bin, c.race, 0)
+	if err != nil {
+		return 0, false
+	}
+	defer w.stop()
+	tape := c.tape
+	if tape == nil {
+		tape = rawStream(r.seed, r.cfg.Engine, r.prop, c.run, 1<<16)
+	}
+	var worst time.Duration
+	for i := 0; i < 2; i++ {
+		t0 := time.Now()
+		resp, ci, e := w.do(r.replayRequest(tape, false), time.Duration(r.cfg.TimeoutS)*time.Second)
+		if e != nil || ci != nil || resp == nil || resp.Error != "" {
+			return 0, false
+		}
+		if d := time.Since(t0); d > worst {
+			worst = d
+		}
+	}
+	return worst, true
+}
+
 func (r *runner) confirmAndMinimise(c *candidate, tier string) (string, *replayFile, error) {
 	bin := r.bin
 	if c.race {
